@@ -57,8 +57,10 @@ def gen(rng, tier):
         tol = rng.choice([0.1, 0.1, 0.2, 0.05, 0.3])
     nv = rng.randint(1, 2)
     vars_ = common.VARS[:nv]
-    ast = sg.gen_formula(rng, sg.GenCfg(vars=vars_, ops=common.PAST_OPS - {'sqrt', 'ln', 'log', 'pow', 'exp', '/'}, max_depth=3,
-                                        max_bound=2))
+    semantics = rng.choice([None, None, 'output-robustness', 'input-robustness', 'output-vacuity', 'input-vacuity'])
+    # (under IA-STL semantics insensitive predicates are +-inf; iff/xor of two infinities is inf - inf: no defined value)
+    ast = sg.gen_formula(rng, sg.GenCfg(vars=vars_, ops=common.PAST_OPS - {'sqrt', 'ln', 'log', 'pow', 'exp', '/'} -
+                                        ({'iff', 'xor', '+', '-', '*'} if semantics else set()), max_depth=3, max_bound=2))
     maxlen = 3 if tier == 'quick' else 4
     nlong = 40 if tier == 'quick' else 200
     classes = [c for c in CLASSES if exact or not c.startswith('edge')]
@@ -74,7 +76,7 @@ def gen(rng, tier):
             'maxlen': maxlen, 'classes': classes, 'longs': longs, 't0': t0,
             'online_cls': 'dt_on' if rng.random() < 0.6 else 'dt', 'offline_cls': 'dt_off' if rng.random() < 0.5 else 'dt',
             'set_sampling': True if (P, pu, tol) != (1, 's', 0.1) else rng.random() < 0.5,
-            'semantics': rng.choice([None, None, 'output-robustness', 'input-robustness', 'output-vacuity', 'input-vacuity'])}
+            'semantics': semantics}
 
 
 def period_in_stamp_unit(sc):
